@@ -995,7 +995,7 @@ theorem Cfg.r_lt_two_pow_numBits (cfg : Cfg) (hr : cfg.r < 2 ^ (64 * cfg.limbs))
     rw [cfg.numBits_succ n hn]
     rw [hn, ← B_pow_eq, pow_succ] at hr
     have hBn : 0 < B ^ n := Nat.pow_pos B_pos
-    have ht : cfg.r / B ^ n < B := Nat.div_lt_of_lt_mul (by rwa [Nat.mul_comm] at hr)
+    have ht : cfg.r / B ^ n < B := Nat.div_lt_of_lt_mul hr
     rw [Nat.mod_eq_of_lt ht]
     have h1 : cfg.r < B ^ n * (cfg.r / B ^ n + 1) := Nat.lt_mul_div_succ _ hBn
     have h2 : cfg.r / B ^ n < 2 ^ bitLen (cfg.r / B ^ n) :=
